@@ -57,7 +57,9 @@ def run(ctx: Ctx, extended: bool = False) -> None:
             env = wraplib.stacked(e.build()) if stk else e.build()
             ctx.count("stacked_configs" if stk else "bare_configs")
             w = AutoResetWrapper(env, next_obs_in_extras=flag)
-            jreset, jstep = jax.jit(env.reset), jax.jit(env.step)
+            # (function objects of our own: JAX keys its trace caches by function identity, and jitting the very bound method the wrapper
+            # calls would share — and so mask — whatever the wrapper caches for it)
+            jreset, jstep = jax.jit(lambda k, env=env: env.reset(k)), jax.jit(lambda s_, a_, env=env: env.step(s_, a_))
             wreset, wstep = jax.jit(w.reset), jax.jit(w.step)
             seed = int(rng.integers(1 << 30))
             key = jax.random.PRNGKey(seed)
@@ -88,6 +90,10 @@ def run(ctx: Ctx, extended: bool = False) -> None:
                 check_against_model(ctx, e.cid, "step_last" if last else "step_not_last", m, 0, native, ws2, wt2,
                                     {**info, "t": t, "actions": actions[-12:], "last": last})
                 ctx.count("last_steps" if last else "mid_steps")
+                if last and stk and lasts == 0:
+                    # one plain (un-jitted) call of the wrapper on a terminal transition: whatever the wrapper compiles or caches for itself
+                    # on first use is now in place before the second phase changes the wrapped environment
+                    w.step(ws, a)
                 if last:
                     lasts += 1
                     reset_keys.append(key_bits(k1))
@@ -97,8 +103,10 @@ def run(ctx: Ctx, extended: bool = False) -> None:
             # re-jits; every later automatic reset must be the wrapped environment's reset AS IT IS NOW (no reset captured at construction)
             if stk and lasts >= 1:
                 env.fold = 4242
-                jreset, jstep = jax.jit(env.reset), jax.jit(env.step)
-                wstep = jax.jit(w.step)
+                # fresh function objects: JAX caches traces per function identity, and `jax.jit(env.reset)` of the SAME bound method would
+                # hand back the trace made before the attribute changed — for the reference as much as for the wrapper
+                jreset, jstep = jax.jit(lambda k: env.reset(k)), jax.jit(lambda s_, a_: env.step(s_, a_))
+                wstep = jax.jit(lambda s_, a_: w.step(s_, a_))
                 seen_last = 0
                 for t in range(steps, 2 * steps):
                     a = sample_action(env, rng)
